@@ -32,6 +32,7 @@ var genOpts = lm.GenOpts{MaxDepth: 4, Huge: true, TextKinds: true}
 
 type tcase struct {
 	chain     []lm.Step
+	decoys    [][]lm.Step // siblings derived from the same parents, never logged through
 	level     slog.Level
 	addSource bool
 	msg       string
@@ -46,7 +47,11 @@ func (c tcase) render() string {
 	if len(msg) > 80 {
 		msg = fmt.Sprintf("%s…(%d bytes)", msg[:80], len(msg))
 	}
-	return fmt.Sprintf("chain=%s level=%s addSource=%v direct=%v form=%d msg=%q attrs=%s", lm.RenderChain(c.chain), lm.LevelNames[c.level], c.addSource, c.direct, c.form, msg, lm.RenderNodes(c.attrs))
+	nd := 0
+	for _, d := range c.decoys {
+		nd += len(d)
+	}
+	return fmt.Sprintf("decoySiblings=%d chain=%s level=%s addSource=%v direct=%v form=%d msg=%q attrs=%s", nd, lm.RenderChain(c.chain), lm.LevelNames[c.level], c.addSource, c.direct, c.form, msg, lm.RenderNodes(c.attrs))
 }
 
 func needsQuote(s string) bool {
@@ -108,7 +113,7 @@ func run(c tcase) string {
 	var line int
 	var before, after time.Time
 	if c.direct {
-		dh := lm.DeriveHandler(h, c.chain)
+		dh := lm.DeriveHandlerWithDecoys(h, c.chain, c.decoys)
 		pc, f, l := lm.CallerPC()
 		file, line = f, l
 		r := slog.NewRecord(c.instant, c.level, c.msg, pc)
@@ -117,7 +122,7 @@ func run(c tcase) string {
 			return "Handle returned " + err.Error()
 		}
 	} else {
-		l := lm.Derive(logger.New(h), c.chain)
+		l := lm.DeriveWithDecoys(logger.New(h), c.chain, c.decoys)
 		before = time.Now()
 		file, line = lm.Emit(l, c.form, c.level, c.msg, c.attrs)
 		after = time.Now()
@@ -197,6 +202,9 @@ func genCase(t *rapid.T) tcase {
 	}
 	if c.direct {
 		c.instant = lm.GenInstant().Draw(t, "instant")
+	}
+	if len(c.chain) > 0 {
+		c.decoys = lm.GenDecoys(genOpts, len(c.chain)).Draw(t, "decoys")
 	}
 	return c
 }
